@@ -584,7 +584,9 @@ def tree_classes(nodes, root):
             tags.add("empty_group")
         if d == "ExpressionTerminator":
             tags.add("terminator")
-        if d == "ElseJump":
+        par = n.get("parent")
+        if d == "ElseJump" and not (par is not None and par < len(nodes) and nodes[par]["def"] == "ElseJump"):
+            # read at the head of the chain only: a nested ElseJump is a segment of its head's chain
             els = chain_elements(nodes, i)
             if els and nodes[els[-1]]["def"] in COND:
                 tags.add("chain_no_else")
